@@ -130,4 +130,44 @@ Proof.
   rewrite (rd_loop_spec x 0 None [] excl [] idx'); auto.
 Qed.
 
+(* nothing survives (every mode has size 1 and none is excluded - an all-integer index, a total sum): the loop hands every core to
+   its right neighbour and returns ONE core of mode size 1 whose single slice is the product of all the slices *)
+Lemma rd_loop_none_kept (rest : tt R) : forall i carry excl, rest <> [] -> nkept i rest excl = 0%nat ->
+  exists c, rd_loop i rest carry [] excl = [c] /\ nn c = 1%nat /\ r1 c = r1 (last rest (mk3 1 1 1 (fun _ _ _ => 0))) /\
+    forall p q, chainM [(r1 c, fun a b => e3 c a O b)] p q = chainM (carry_sl carry ++ slices rest (repeat O (length rest))) p q.
+Proof.
+  induction rest as [|c0 cs IH]; intros i carry excl Hne Hk; [congruence|].
+  cbn [rd_loop]. set (c := match carry with Some m => absorb_l m c0 | None => c0 end).
+  assert (Hnn : nn c = nn c0) by apply carried_nn.
+  assert (Hr1 : r1 c = r1 c0) by (unfold c; destruct carry; reflexivity).
+  cbn [nkept] in Hk. unfold keptb in Hk. rewrite Hnn.
+  destruct (Nat.eqb (nn c0) 1 && negb (memb i excl)) eqn:Erem; cbn [negb] in Hk; [|simpl in Hk; lia].
+  simpl in Hk.
+  assert (Hone : nn c = 1%nat).
+  { apply andb_true_iff in Erem. destruct Erem as [E1 _]. apply Nat.eqb_eq in E1. lia. }
+  destruct cs as [|c1 cs'].
+  - rewrite orb_true_r. cbn [is_nil]. exists c. split; [reflexivity|]. split; [exact Hone|]. split; [exact Hr1|].
+    intros p q. cbn [length repeat slices]. apply (carried_slice carry c0 O [] p q).
+  - cbn [is_nil]. rewrite orb_false_r.
+    destruct (IH (S i) (Some c) excl ltac:(discriminate) Hk) as [c' [H1 [H2 [H3 H4]]]].
+    exists c'. split; [destruct (r1 c <? r0 c)%nat; exact H1|]. split; [exact H2|]. split; [exact H3|].
+    intros p q. rewrite H4. cbn [carry_sl app length repeat slices].
+    apply (carried_slice carry c0 O (slices (c1 :: cs') (repeat O (length (c1 :: cs')))) p q).
+Qed.
+
+(* reduce_dims when nothing survives: one core, its only entry is the entry of the argument at index 0 everywhere *)
+Theorem reduce_dims_none_kept (x : tt R) excl : wf x -> nkept 0 x excl = 0%nat ->
+  exists c, reduce_dims x excl = [c] /\ nn c = 1%nat /\ e3 c 0%nat 0%nat 0%nat = entry x (repeat O (length x)).
+Proof.
+  intros [Hne Hch] Hk. destruct (rd_loop_none_kept x 0%nat None excl Hne Hk) as [c [H1 [H2 [H3 H4]]]].
+  exists c. split; [exact H1|]. split; [exact H2|].
+  unfold entry. specialize (H4 0%nat 0%nat). cbn [carry_sl app] in H4. rewrite <- H4.
+  assert (Hl : r1 c = 1%nat).
+  { rewrite H3. clear - Hne Hch. revert Hch. generalize 1%nat at 1. induction x as [|a t IH]; intros r Hc; [congruence|].
+    destruct t as [|b t']; [simpl in *; destruct Hc as [_ Hc]; exact Hc|].
+    change (last (a :: b :: t') _) with (last (b :: t') (mk3 1 1 1 (fun _ _ _ : nat => 0))).
+    destruct Hc as [_ Hc]. apply (IH ltac:(discriminate) (r1 a) Hc). }
+  rewrite chainM_cons. rewrite Hl. rewrite sum_n_1. change (chainM (@nil (sl R)) 0%nat 0%nat) with (@delta R RO 0 0). unfold delta. cbn [Nat.eqb]. ring.
+Qed.
+
 End ReduceDimsP.
